@@ -442,5 +442,44 @@ Proof.
   - eexists. split; [vm_compute; reflexivity|]. vm_compute. reflexivity.
 Qed.
 
+(* ---------------- the hypotheses are needed ---------------- *)
+
+Theorem uper_roundtrip_unsorted_setof_refuted :
+  exists std t v bits, wf_ty_uper t = true /\ wt_uper std t v = false /\
+    uper std t v = Some bits /\ uper_dec std t bits <> Some (v, []).
+Proof.
+  exists false, (TSetOf 68 (SCon 0 None false) (TOct 16 (SCon 0 None false))),
+    (VList [VOct [2]; VOct [1]]). eexists.
+  split; [reflexivity|]. split; [vm_compute; reflexivity|].
+  split; [vm_compute; reflexivity|]. vm_compute. discriminate.
+Qed.
+
+Theorem uper_roundtrip_equal_keys_refuted :
+  exists t v bits, wf_ty_uper t = false /\ wt_uper true t v = true /\
+    uper true t v = Some bits /\ uper_dec true t bits <> Some (v, []).
+Proof.
+  exists (TChoice [TNull 20; TBool 20]), (VChoice 1 (VBool true)). eexists.
+  split; [vm_compute; reflexivity|]. split; [vm_compute; reflexivity|].
+  split; [vm_compute; reflexivity|]. vm_compute. discriminate.
+Qed.
+
+Theorem uper_roundtrip_toplevel_optional_refuted :
+  exists std t v bits, wf_ty_uper t = false /\ wt_uper std t v = true /\
+    uper std t v = Some bits /\ uper_dec std t bits <> Some (v, []).
+Proof.
+  exists false, (TOpt (TBool 4)), VNone. eexists.
+  split; [vm_compute; reflexivity|]. split; [vm_compute; reflexivity|].
+  split; [vm_compute; reflexivity|]. vm_compute. discriminate.
+Qed.
+
+Theorem uper_roundtrip_huge_lower_bound_refuted :
+  exists t v bits, wf_ty_uper t = false /\ wt_uper true t v = true /\
+    uper true t v = Some bits /\ uper_dec true t bits <> Some (v, []).
+Proof.
+  exists (TInt 8 (ICon (Some (- 2 ^ 520)) None false)), (VInt 0). eexists.
+  split; [vm_compute; reflexivity|]. split; [vm_compute; reflexivity|].
+  split; [vm_compute; reflexivity|]. vm_compute. discriminate.
+Qed.
+
 Print Assumptions uper_roundtrip_in_stream.
 Print Assumptions uper_decode_roundtrip.
